@@ -60,11 +60,37 @@ def inject(repo_dir: str, unit: dict):
         hpath = os.path.join(KANI_DIR, m["harness"])
         with open(path, "a") as f:
             f.write(f'\n#[cfg(kani)]\n#[path = "{hpath}"]\nmod {m["name"]};\n')
+    if unit.get("tracing_stub"):
+        apply_tracing_stub(repo_dir)
     for p in unit.get("crate_attrs", []):
         path = os.path.join(repo_dir, p["file"])
         src = open(path).read()
         open(path, "w").write(p["text"] + "\n" + src)
     return under_contract
+
+
+TRACING_STUB_NOTE = ("build configuration of the scratch copy only: the `tracing` / `tracing-attributes` crates are replaced by no-op stand-ins "
+                     "(/verif/kani/stubs) through [patch.crates-io], and the `tracing-full` default feature of chalk-solve / chalk-recursive is switched off, "
+                     "because kani-compiler ICEs on tracing's dispatcher; assumption: logging (including the evaluation of log arguments) has no effect on program state")
+
+
+def apply_tracing_stub(repo_dir: str):
+    root = os.path.join(repo_dir, "Cargo.toml")
+    txt = open(root).read()
+    if "kani/stubs/tracing" in txt:
+        return
+    stubs = os.path.join(KANI_DIR, "stubs")
+    txt += f'\n[patch.crates-io]\ntracing = {{ path = "{stubs}/tracing" }}\ntracing-attributes = {{ path = "{stubs}/tracing-attributes" }}\n'
+    open(root, "w").write(txt)
+    for rel in ("chalk-solve/Cargo.toml", "chalk-recursive/Cargo.toml"):
+        p = os.path.join(repo_dir, rel)
+        t = open(p).read()
+        t = re.sub(r'(?m)^default = \["tracing-full"\]', 'default = []', t)
+        open(p, "w").write(t)
+    p = os.path.join(repo_dir, "chalk-engine/Cargo.toml")
+    t = open(p).read()
+    t = re.sub(r'(chalk-solve = \{[^}]*path = "\.\./chalk-solve")\s*\}', r'\1, default-features = false }', t)
+    open(p, "w").write(t)
 
 
 def discover_harnesses(unit: dict, tier: str):
@@ -190,8 +216,14 @@ def playback(repo_dir: str, unit: dict, harness: str, pid: str, failed: dict, ra
     m = re.search(r"```\n(.*?)```", out, re.S)
     if m:
         test = m.group(1)
+    hsrc = harness_source(unit, harness)
+    concrete = hsrc is not None and "kani::any" not in hsrc
     with open(path, "w") as f:
         f.write(f"# replay for property {pid}, unit {unit['id']}, harness {harness}\n")
+        if hsrc:
+            f.write("# harness (the call made on the real code):\n" + "".join("#   " + l + "\n" for l in hsrc.splitlines()))
+        if concrete:
+            f.write("# this harness has no symbolic input: the failing input is exactly the call above\n")
         f.write(f"# crate: {unit['crate']}\n")
         f.write("# failed obligations:\n")
         for fc in failed.get("failed_checks", []):
@@ -204,4 +236,19 @@ def playback(repo_dir: str, unit: dict, harness: str, pid: str, failed: dict, ra
             f.write("# no concrete input could be produced (no-failing-input-found)\n")
         f.write("# ---- verifier output (tail) ----\n")
         f.write(raw[-6000:])
-    return path, test is not None
+    return path, (test is not None) or concrete
+
+
+def harness_source(unit: dict, harness: str):
+    for m in unit.get("mods", []):
+        hp = m["harness"] if os.path.isabs(m["harness"]) else os.path.join(KANI_DIR, m["harness"])
+        txt = open(hp).read()
+        for inc in re.findall(r'include!\("([^"]+\.rs)"\)', txt):
+            if os.path.exists(inc):
+                txt += "\n" + open(inc).read()
+        try:
+            fn = rsrc.find_fn(txt, harness)
+            return fn.text
+        except rsrc.AnchorLost:
+            continue
+    return None
